@@ -157,6 +157,20 @@ def run(case):
         err = float(np.max(np.abs(y12 - (a * y1 + b * y2)))) / s
         case.check(err <= TOLERANCES["linearity"], "low-pass is not linear", rel_err=err,
                    shape=shape, cutoff=cutoff)
+    # repeated calls on the same (shape, cutoff) with other orders: memoised weights must not go stale
+    if not identity:
+        for order2 in (order + 1, 1, order):
+            w2 = ref.lowpass(x, cutoff, order2)
+            for name, fn in (("utils.lowpass_filter", lambda a: _utils.lowpass_filter(a, cutoff, order2)),
+                             ("Backend.lowpass_filter", lambda a: xp.lowpass_filter(a, cutoff, order2)),
+                             ("utils.lowpass_filter_ft", lambda a: np.fft.ifftn(_utils.lowpass_filter_ft(a, cutoff, order2)).real),
+                             ("pipe.lowpass_filter", lambda a: pipe.lowpass_filter(cutoff, order2)(a, 1.0))):
+                y = np.asarray(fn(x))
+                if y.shape == shape:
+                    err = float(np.max(np.abs(y - w2))) / scale_v
+                    case.check(err <= TOLERANCES["rel_value"],
+                               f"{name}: repeated call with another order differs from the reference (stale weights?)",
+                               None, rel_err=err, shape=shape, cutoff=cutoff, first_order=order, order=order2)
     # alignment pre-transform (order 2, cutoff semantic: None/0 -> 1.0 i.e. identity)
     if min(shape) >= 2:
         tmpl = np.ones(shape, np.float32)
